@@ -27,6 +27,38 @@ def _order(fn, nodes):
     return [(n.lineno, n.col_offset) for n in nodes]
 
 
+def _canonical_roles(fn):
+    """A copy of _manage_execution in which the locals are renamed by the role they play (what they are bound to), so that the
+    rules below do not depend on what the source happens to call them:
+      response_future  <- the value of subscribe(...)
+      response         <- the value of `await response_future`
+      current_request  <- the argument of the awaited queue.put(...)
+      create_program_and_job_request <- what current_request is first bound to before the retry loop"""
+    import copy
+    fn2 = copy.deepcopy(fn)
+    roles = {}
+    for st in ast.walk(fn2):
+        if isinstance(st, ast.Assign) and len(st.targets) == 1 and isinstance(st.targets[0], ast.Name):
+            v = st.value
+            if isinstance(v, ast.Call) and call_name(v) == 'subscribe':
+                roles[st.targets[0].id] = 'response_future'
+    for st in ast.walk(fn2):
+        if isinstance(st, ast.Assign) and len(st.targets) == 1 and isinstance(st.targets[0], ast.Name) and isinstance(st.value, ast.Await) \
+                and isinstance(st.value.value, ast.Name) and roles.get(st.value.value.id) == 'response_future':
+            roles[st.targets[0].id] = 'response'
+        if isinstance(st, ast.Await) and isinstance(st.value, ast.Call) and call_name(st.value) == 'put' and st.value.args and isinstance(st.value.args[0], ast.Name):
+            roles[st.value.args[0].id] = 'current_request'
+    cur = [k for k, v in roles.items() if v == 'current_request']
+    if cur:
+        for st in fn2.body:
+            if isinstance(st, ast.Assign) and len(st.targets) == 1 and isinstance(st.targets[0], ast.Name) and st.targets[0].id == cur[0] and isinstance(st.value, ast.Name):
+                roles[st.value.id] = 'create_program_and_job_request'
+    for n in ast.walk(fn2):
+        if isinstance(n, ast.Name) and n.id in roles:
+            n.id = roles[n.id]
+    return fn2
+
+
 def run(ctx):
     repo = ctx.repo
     ctx.decided += [
@@ -47,6 +79,7 @@ def run(ctx):
              'is put on the queue, and the put precedes awaiting the future; non-retryable errors re-raise; retry rebinds the request; '
              'cancellation cancels the future, cancels the remote job and re-raises; result/job return, error consults the retry table', floor=10, style='MPT')
     fn = repo.method(sm.qual, '_manage_execution')
+    fn = _canonical_roles(fn)
     loops = [n for n in ast.walk(fn) if isinstance(n, ast.While)]
     if not loops:
         raise AnalysisError('_manage_execution: retry loop vanished')
@@ -183,16 +216,23 @@ def run(ctx):
     for h in tries[0].handlers:
         t = ast.unparse(h.type) if h.type is not None else 'bare'
         src = ' '.join(ast.unparse(s) for s in h.body)
-        ok = 'request_queue.put(None)' in src
+        ok = any(isinstance(c, ast.Call) and call_name(c) == 'put' and len(c.args) == 1 and isinstance(c.args[0], ast.Constant) and c.args[0].value is None
+                 for s_ in h.body for c in ast.walk(s_))
         ctx.ob('C20.c', f'{sm.qual}._manage_stream:{t}:sentinel', ok, '' if ok else f'except {t} arm does not enqueue the None sentinel: the old request iterator keeps consuming requests meant for the new stream', m.rel, h.lineno)
         if 'CancelledError' in t:
             ok = any(isinstance(s, ast.Break) for s in h.body)
             ctx.ob('C20.c', f'{sm.qual}._manage_stream:{t}:breaks', ok, '' if ok else 'cancellation does not stop the stream loop', m.rel, h.lineno)
         else:
-            ok = 'publish_exception(e)' in src and not any(isinstance(s, (ast.Break, ast.Return, ast.Raise)) for s in h.body)
+            ok = any(isinstance(c, ast.Call) and call_name(c) == 'publish_exception' and len(c.args) == 1 and isinstance(c.args[0], ast.Name) and c.args[0].id == h.name
+                     for s_ in h.body for c in ast.walk(s_)) and not any(isinstance(s, (ast.Break, ast.Return, ast.Raise)) for s in h.body)
             ctx.ob('C20.c', f'{sm.qual}._manage_stream:{t}:publishes-and-loops', ok, '' if ok else 'a broken stream is not reported to every waiting execution (or the loop stops)', m.rel, h.lineno)
     pubcalls = _calls(tries[0], lambda c: call_name(c) == 'publish')
-    ok = bool(pubcalls) and ast.unparse(pubcalls[0].args[0]) == 'response' and any(isinstance(l, ast.AsyncFor) for l in enclosing_loops(parents, pubcalls[0], ms))
+    # publish(<the loop variable of the enclosing `async for` over the stream>)
+    ok = False
+    if pubcalls and pubcalls[0].args and isinstance(pubcalls[0].args[0], ast.Name):
+        for l in enclosing_loops(parents, pubcalls[0], ms):
+            if isinstance(l, ast.AsyncFor) and isinstance(l.target, ast.Name) and l.target.id == pubcalls[0].args[0].id:
+                ok = True
     ctx.ob('C20.c', f'{sm.qual}._manage_stream:publishes-each-response', ok, '' if ok else 'responses are not all forwarded to the demultiplexer', m.rel, ms.lineno)
 
     # ------------------------------------------------------------------ C20.d
